@@ -32,11 +32,11 @@ func init() {
 
 // Env is a producer node with the trunk built.
 type Env struct {
-	P      *vnode.Node
-	Cfg    *types.Chain33Config
-	Trunk  []*types.Block // trunk[0] = genesis … trunk[12]
-	Snap   vnode.Snapshot // databases of a node holding exactly the trunk
-	nonce  int64
+	P       *vnode.Node
+	Cfg     *types.Chain33Config
+	Trunk   []*types.Block // trunk[0] = genesis … trunk[12]
+	Snap    vnode.Snapshot // databases of a node holding exactly the trunk
+	nonce   int64
 	CfgEdit func(string) string
 }
 
